@@ -49,14 +49,18 @@ type Parser struct {
 // put on the stack at most: macros recurse up to maxMacroDepth activations, each with
 // the nesting of its body in between, and a stack overflow cannot be recovered from. One
 // level of nesting costs up to about 1.3 KB of stack when it is executed (a subscript or
-// call argument: variableResolver.resolve; a for-loop), so 1000 levels x 1000 activations
-// do not fit into Go's 1 GB stack limit; 250 do, with room to spare.
+// call argument: variableResolver.resolve; a for-loop costs 0.9 KB), and Go's stack
+// limit of 1 GB is in effect one of 512 MB (stacks grow by doubling). 250 levels x 1100
+// nested executions (see executionNesting) stay below that - provided the 250 are counted
+// over the tags and the expressions inside them together, which is what deeper() does.
 const maxNestingDepth = 250
 
-// deeper accounts for n more levels of nesting and refuses to go beyond the bound.
+// deeper accounts for n more levels of nesting and refuses to go beyond the bound. The
+// tags around the expression (counted per template by parseTagElement) count as well:
+// what is on the stack when the expression is evaluated is the sum of both.
 func (p *Parser) deeper(n int) *Error {
 	p.depth += n
-	if p.depth > maxNestingDepth {
+	if p.depth+p.template.level > maxNestingDepth {
 		return p.Error(fmt.Sprintf("expression is nested too deeply (more than %d levels)", maxNestingDepth), nil)
 	}
 	return nil
